@@ -145,7 +145,7 @@ func TestNamespace(t *testing.T) {
 	// (C) random fully populated messages
 	n := 2500
 	if rec.Thorough() {
-		n = 150000
+		n = 20000000
 	}
 	for k := 0; k < n; k += 50 {
 		idx++
